@@ -520,7 +520,8 @@ func runPrep(e *Env) {
 				op.wrong = true
 				en := op.entries[tp.Next(len(op.entries))]
 				en.wrong = true
-				en.useBind = false
+				// the wrong number of values may also come out of a binding callback
+				en.useBind = tp.Chance(1, 2)
 				mode := tp.Next(2)
 				if op.kind == prepKindWrongBatch && prepZeroArgBatch && tp.Chance(1, 30) {
 					mode = 2
